@@ -3,7 +3,9 @@
 package props
 
 import (
+	"crypto/sha256"
 	"fmt"
+	"math/big"
 	"testing"
 
 	"github.com/crate-crypto/go-ipa/banderwagon"
@@ -247,8 +249,30 @@ func evalC14(c c14Case, rec *hx.Rec) error {
 
 var c14Part = hx.NewPart("C14", "chain", genC14, evalC14)
 
+// bandMessage searches a message whose first challenge digest (protocol || label || msg || challenge label) lies in
+// [r, 2^253): it needs reduction although its top byte equals the top byte of r.
+func bandMessage(protocol string, start uint64) (string, bool) {
+	lim := new(big.Int).Lsh(big.NewInt(1), 253)
+	for i := uint64(0); i < 400000; i++ {
+		msg := []byte(fmt.Sprintf("band-%d-%d", start, i))
+		h := sha256.Sum256(append(append(append([]byte(protocol), []byte("m")...), msg...), []byte("c")...))
+		v := ref.FromLE(h[:])
+		if v.Cmp(ref.R) >= 0 && v.Cmp(lim) < 0 {
+			return hx.HexBytes(msg), true
+		}
+	}
+	return "", false
+}
+
 func TestC14(t *testing.T) {
 	s := hx.Start(t, "C14")
 	defer s.Finish()
+	if msg, ok := bandMessage("bandproto", uint64(1000*hx.Seed()+hx.Shard())); ok {
+		m, c := hx.HexBytes([]byte("m")), hx.HexBytes([]byte("c"))
+		one := scalarSpec{Kind: "one"}
+		c14Part.EvalCase(s, c14Case{Protocol: "bandproto", Ops: []trOp{{Op: "msg", Label: m, Msg: msg}, {Op: "challenge", Label: c},
+			{Op: "challenge", Label: c}, {Op: "scalar", Label: m, S: &one}, {Op: "challenge", Label: c}}, MutKind: "label"})
+		s.Rec.Label("forced_digest_in_[r,2^253)")
+	}
 	c14Part.Run(s, hx.PerShard(hx.Pick(64000, 800000)))
 }
